@@ -148,8 +148,9 @@ Inductive gobj :=
       (* NearKey == nil and no near container above: Box, Label.Value != "", LabelPosition, LabelDimensions *)
 | GNear (k : nearkey) (b : box)          (* an already placed constant near *)
 | GObjNear (b : box) (has_label : bool) (lp : option bytes) (lw lh : Q).
-      (* a shape of the main diagram whose near is ANOTHER SHAPE (NearKey != nil but not a constant), or a
-         descendant of such a shape (OuterNearContainer() != nil): boundingBox skips it *)
+      (* a shape of the main diagram whose near is ANOTHER SHAPE (NearKey != nil but IsConstantNear() is false),
+         or a descendant of such a shape.  Since 40b9f8452 boundingBox treats it like every other shape
+         (before, it was skipped: [add_obj0] applied to the raw object) *)
 
 Definition bbstate := (range * range)%type.
 
@@ -167,7 +168,8 @@ Definition label_box (b : box) (has_label : bool) (lp : option bytes) (lw lh : Q
     end
   else None.
 
-Definition add_obj (s : bbstate) (g : gobj) : bbstate :=
+(* boundingBox's loop body as it was before 40b9f8452 *)
+Definition add_obj0 (s : bbstate) (g : gobj) : bbstate :=
   match g with
   | GMain b hl lp lw lh =>
       let s1 := add_box s b in
@@ -180,6 +182,14 @@ Definition add_obj (s : bbstate) (g : gobj) : bbstate :=
       end
   | GObjNear _ _ _ _ _ => s
   end.
+
+(* a shape whose near is another shape is a plain shape of the diagram *)
+Definition plain (g : gobj) : gobj :=
+  match g with GObjNear b hl lp lw lh => GMain b hl lp lw lh | _ => g end.
+
+(* boundingBox's loop body now: IsConstantNear() / inConstantNear() instead of NearKey != nil /
+   OuterNearContainer() != nil *)
+Definition add_obj (s : bbstate) (g : gobj) : bbstate := add_obj0 s (plain g).
 
 Definition add_pt (s : bbstate) (p : Q * Q) : bbstate :=
   (ext (fst s) (fst p) (fst p), ext (snd s) (snd p) (snd p)).
@@ -299,15 +309,9 @@ Definition clear_of_b (margin tol : Q) (kc : nearkey) (c : box) (kd : nearkey) (
     (implb' (is_top kc) (Qle_bool (by_ c + bh c + margin) (by_ d + tol)) &&
      implb' (is_bottom kc) (Qle_bool (by_ d + bh d + margin) (by_ c + tol))).
 
-(* The bounding box of the whole main diagram: the shapes boundingBox skips because their near is another
-   shape are shapes of the main diagram too ([xpts]: route points of the edges touching them). *)
-Definition plain (g : gobj) : gobj :=
-  match g with GObjNear b hl lp lw lh => GMain b hl lp lw lh | _ => g end.
-Definition full_box (main : list gobj) (pts xpts : list (Q * Q)) : bbox :=
-  bounding_box (map plain main) (pts ++ xpts).
-Definition no_obj_near_b (main : list gobj) : bool :=
-  forallb (fun g => match g with GObjNear _ _ _ _ _ => false | _ => true end) main.
-
+(* the placement as it was before 40b9f8452: shapes whose near is another shape did not exist for boundingBox *)
+Definition drop_obj_near (main : list gobj) : list gobj :=
+  filter (fun g => match g with GObjNear _ _ _ _ _ => false | _ => true end) main.
 (* two boxes share interior points *)
 Definition Qlt_b (a b : Q) : bool := negb (Qle_bool b a).
 Definition boxes_overlap_b (a b : box) : bool :=
@@ -316,4 +320,7 @@ Definition boxes_overlap_b (a b : box) : bool :=
 
 (* hypotheses of the theorems, as booleans the checker evaluates *)
 Definition label_dims_ok_b (n : nearobj) : bool := Qle_bool 0 (n_lw n) && Qle_bool 0 (n_lh n).
-Definition has_shape_b (main : list gobj) : bool := existsb (fun g => match g with GMain _ _ _ _ _ => true | _ => false end) main.
+Definition has_shape_b (main : list gobj) : bool := existsb (fun g => match plain g with GMain _ _ _ _ _ => true | _ => false end) main.
+
+Definition layout_pinned (main : list gobj) (pts : list (Q * Q)) (ns : list nearobj) : list (Q * Q) :=
+  layout (drop_obj_near main) pts ns.
